@@ -399,7 +399,7 @@ def run_patterns(rep, spec, tier='quick', verbose=False, only=None, which=('grid
             else:
                 npaths += ex.verify_case(c, fn)
             rep.functions.append('emitted ' + c.name)
-        except (Unsupported, KeyError, RecursionError) as e:
+        except (Unsupported, KeyError, RecursionError, AttributeError, TypeError, IndexError, z3.Z3Exception) as e:
             del ex.obls[before:]
             rep.undecided.append(('pattern ' + c.name, '%s: %s' % (type(e).__name__, e)))
     obls = ex.obls
@@ -511,7 +511,7 @@ def run_c08(rep, spec, verbose=False, only=None):
         try:
             ex.verify_spec_case(c, fn)
             rep.functions.append('emitted ' + c.name)
-        except (Unsupported, KeyError, RecursionError, AttributeError) as e:
+        except (Unsupported, KeyError, RecursionError, AttributeError, TypeError, IndexError, z3.Z3Exception) as e:
             del ex.obls[before:]
             rep.undecided.append(('pattern ' + c.name, '%s: %s' % (type(e).__name__, e)))
     rep.assumed |= ex.assumed
@@ -835,7 +835,7 @@ def run_c14(rep, spec, verbose=False, only=None):
             if fn is None: raise Unsupported('function not found in the emitted package')
             ex.verify_spec_case(c, fn)
             rep.functions.append('emitted ' + c.name)
-        except (Unsupported, KeyError, RecursionError, AttributeError) as e:
+        except (Unsupported, KeyError, RecursionError, AttributeError, TypeError, IndexError, z3.Z3Exception) as e:
             del ex.obls[before:]
             rep.undecided.append(('pattern ' + c.name, '%s: %s' % (type(e).__name__, e)))
     for (name, src_, ivar, rvar) in rcases:
@@ -845,7 +845,7 @@ def run_c14(rep, spec, verbose=False, only=None):
             if fn is None: raise Unsupported('function not found in the emitted package')
             ex.verify_range_case(name, fn, ivar, rvar)
             rep.functions.append('emitted ' + name)
-        except (Unsupported, KeyError, RecursionError, AttributeError) as e:
+        except (Unsupported, KeyError, RecursionError, AttributeError, TypeError, IndexError, z3.Z3Exception) as e:
             del ex.obls[before:]
             rep.undecided.append(('pattern ' + name, '%s: %s' % (type(e).__name__, e)))
     rep.assumed |= ex.assumed
